@@ -214,6 +214,31 @@ pub fn run(ctx: &'static Ctx) {
             }
         }
     }
+    // every character (the value principle): each ASCII character and each two-byte UTF-8 character (U+0000..U+07FF), plus a
+    // selection beyond, at the head, at the tail, inside and alone; every pair of ASCII characters at the head - a rule keyed
+    // to one particular character (a legacy prefix, a quote, an escape) on one of the two carriers is met at that character
+    let mut chars: Vec<char> = (0u32..0x800).filter_map(char::from_u32).collect();
+    chars.extend(['\u{800}', '\u{fffd}', '\u{ffff}', '\u{10000}', '\u{10ffff}', '\u{2028}', '\u{feff}']);
+    let mut sc = 0u64;
+    for c in &chars {
+        for st in [c.to_string(), format!("{}PNP0A03", c), format!("AB{}", c), format!("AB{}CD", c), format!("{}{}", c, c)] {
+            let what = format!("{:?}", st);
+            same(ctx, "alt:string:character", *c as u64, &T::Str(st.clone(), false), &T::Str(st.clone(), true), || format!("string {}", what));
+            sc += 1;
+        }
+        let st = format!("{}X", c);
+        same(ctx, "alt:string:character-nested", *c as u64, &T::Package(vec![T::Str(st.clone(), false), T::One]), &T::Package(vec![T::Str(st.clone(), true), T::One]), || format!("package holding string {:?}", st));
+        sc += 1;
+    }
+    for a in 0u8..128 {
+        for b in 0u8..128 {
+            let st = format!("{}{}ID", a as char, b as char);
+            same(ctx, "alt:string:character-pair", (a as u64) << 8 | b as u64, &T::Str(st.clone(), false), &T::Str(st.clone(), true), || format!("string {:?}", st));
+            sc += 1;
+        }
+    }
+    s += sc;
+    ctx.engine("E4.string-characters", json!({"pairs": sc, "characters": chars.len(), "forms": ["alone", "head", "tail", "inside", "doubled", "nested in a package"], "ascii_head_pairs": 128 * 128}));
     ctx.engine("E4.strings", json!({"pairs": s, "special_values": specials.len()}));
 
     // ---- usize vs u64 over the C08 structured set
